@@ -39,7 +39,7 @@ def oneline(value: object) -> str:
     """
     text = str(value)
     return ''.join(
-        character if character.isprintable() or character == ' ' else repr(character)[1:-1] for character in text
+        character if (character.isascii() and character.isprintable()) else ascii(character)[1:-1] for character in text
     )
 
 
